@@ -663,6 +663,9 @@ func c08Run(c *Ctx, k thriftCase) {
 	case "type-mismatch":
 		// write field i with another type: strict decoding reports TypeMismatch
 		for i, f := range k.Layout {
+			if f.Ty == "UNION" {
+				continue
+			}
 			other := tField{ID: f.ID, Ty: "I16"}
 			if f.Ty == "I16" || f.Ty == "ENUM" {
 				other.Ty = "BINARY" // (an enum field of 16-bit width expects I16 in the header as the code is: F-C13-5)
